@@ -450,7 +450,9 @@ fn factor_impl(
                 if prefs.verbose(Verbosity::Info) {
                     eprintln!("Rho algorithm failed");
                 }
+                factors.push(n);
             }
+            return;
         }
         Algo::Squfof => {
             assert!(n.bits() <= 64);
